@@ -191,7 +191,7 @@ func (c *connection) applicationStart(name gen.Atom, mode gen.ApplicationMode, o
 		Options: extra,
 		Ref:     ref,
 	}
-	ch := make(chan MessageResult)
+	ch := make(chan MessageResult, 1)
 	c.requestsMutex.Lock()
 	c.requests[ref] = ch
 	c.requestsMutex.Unlock()
@@ -230,7 +230,7 @@ func (c *connection) updateCache() error {
 		Ref: ref,
 		// put them here
 	}
-	ch := make(chan MessageResult)
+	ch := make(chan MessageResult, 1)
 	c.requestsMutex.Lock()
 	c.requests[ref] = ch
 	c.requestsMutex.Unlock()
@@ -963,7 +963,7 @@ func (c *connection) LinkPID(pid gen.PID, target gen.PID) error {
 		Ref:    ref,
 	}
 
-	ch := make(chan MessageResult)
+	ch := make(chan MessageResult, 1)
 	c.requestsMutex.Lock()
 	c.requests[ref] = ch
 	c.requestsMutex.Unlock()
@@ -989,7 +989,7 @@ func (c *connection) UnlinkPID(pid gen.PID, target gen.PID) error {
 		Target: target,
 		Ref:    ref,
 	}
-	ch := make(chan MessageResult)
+	ch := make(chan MessageResult, 1)
 	c.requestsMutex.Lock()
 	c.requests[ref] = ch
 	c.requestsMutex.Unlock()
@@ -1011,7 +1011,7 @@ func (c *connection) LinkProcessID(pid gen.PID, target gen.ProcessID) error {
 		Target: target,
 		Ref:    ref,
 	}
-	ch := make(chan MessageResult)
+	ch := make(chan MessageResult, 1)
 	c.requestsMutex.Lock()
 	c.requests[ref] = ch
 	c.requestsMutex.Unlock()
@@ -1034,7 +1034,7 @@ func (c *connection) UnlinkProcessID(pid gen.PID, target gen.ProcessID) error {
 		Target: target,
 		Ref:    ref,
 	}
-	ch := make(chan MessageResult)
+	ch := make(chan MessageResult, 1)
 	c.requestsMutex.Lock()
 	c.requests[ref] = ch
 	c.requestsMutex.Unlock()
@@ -1061,7 +1061,7 @@ func (c *connection) LinkAlias(pid gen.PID, target gen.Alias) error {
 		Target: target,
 		Ref:    ref,
 	}
-	ch := make(chan MessageResult)
+	ch := make(chan MessageResult, 1)
 	c.requestsMutex.Lock()
 	c.requests[ref] = ch
 	c.requestsMutex.Unlock()
@@ -1088,7 +1088,7 @@ func (c *connection) UnlinkAlias(pid gen.PID, target gen.Alias) error {
 		Target: target,
 		Ref:    ref,
 	}
-	ch := make(chan MessageResult)
+	ch := make(chan MessageResult, 1)
 	c.requestsMutex.Lock()
 	c.requests[ref] = ch
 	c.requestsMutex.Unlock()
@@ -1110,7 +1110,7 @@ func (c *connection) LinkEvent(pid gen.PID, target gen.Event) ([]gen.MessageEven
 		Target: target,
 		Ref:    ref,
 	}
-	ch := make(chan MessageResult)
+	ch := make(chan MessageResult, 1)
 	c.requestsMutex.Lock()
 	c.requests[ref] = ch
 	c.requestsMutex.Unlock()
@@ -1139,7 +1139,7 @@ func (c *connection) UnlinkEvent(pid gen.PID, target gen.Event) error {
 		Target: target,
 		Ref:    ref,
 	}
-	ch := make(chan MessageResult)
+	ch := make(chan MessageResult, 1)
 	c.requestsMutex.Lock()
 	c.requests[ref] = ch
 	c.requestsMutex.Unlock()
@@ -1164,7 +1164,7 @@ func (c *connection) MonitorPID(pid gen.PID, target gen.PID) error {
 		Target: target,
 		Ref:    ref,
 	}
-	ch := make(chan MessageResult)
+	ch := make(chan MessageResult, 1)
 	c.requestsMutex.Lock()
 	c.requests[ref] = ch
 	c.requestsMutex.Unlock()
@@ -1189,7 +1189,7 @@ func (c *connection) DemonitorPID(pid gen.PID, target gen.PID) error {
 		Target: target,
 		Ref:    ref,
 	}
-	ch := make(chan MessageResult)
+	ch := make(chan MessageResult, 1)
 	c.requestsMutex.Lock()
 	c.requests[ref] = ch
 	c.requestsMutex.Unlock()
@@ -1211,7 +1211,7 @@ func (c *connection) MonitorProcessID(pid gen.PID, target gen.ProcessID) error {
 		Target: target,
 		Ref:    ref,
 	}
-	ch := make(chan MessageResult)
+	ch := make(chan MessageResult, 1)
 	c.requestsMutex.Lock()
 	c.requests[ref] = ch
 	c.requestsMutex.Unlock()
@@ -1233,7 +1233,7 @@ func (c *connection) DemonitorProcessID(pid gen.PID, target gen.ProcessID) error
 		Target: target,
 		Ref:    ref,
 	}
-	ch := make(chan MessageResult)
+	ch := make(chan MessageResult, 1)
 	c.requestsMutex.Lock()
 	c.requests[ref] = ch
 	c.requestsMutex.Unlock()
@@ -1259,7 +1259,7 @@ func (c *connection) MonitorAlias(pid gen.PID, target gen.Alias) error {
 		Target: target,
 		Ref:    ref,
 	}
-	ch := make(chan MessageResult)
+	ch := make(chan MessageResult, 1)
 	c.requestsMutex.Lock()
 	c.requests[ref] = ch
 	c.requestsMutex.Unlock()
@@ -1285,7 +1285,7 @@ func (c *connection) DemonitorAlias(pid gen.PID, target gen.Alias) error {
 		Target: target,
 		Ref:    ref,
 	}
-	ch := make(chan MessageResult)
+	ch := make(chan MessageResult, 1)
 	c.requestsMutex.Lock()
 	c.requests[ref] = ch
 	c.requestsMutex.Unlock()
@@ -1307,7 +1307,7 @@ func (c *connection) MonitorEvent(pid gen.PID, target gen.Event) ([]gen.MessageE
 		Target: target,
 		Ref:    ref,
 	}
-	ch := make(chan MessageResult)
+	ch := make(chan MessageResult, 1)
 	c.requestsMutex.Lock()
 	c.requests[ref] = ch
 	c.requestsMutex.Unlock()
@@ -1336,7 +1336,7 @@ func (c *connection) DemonitorEvent(pid gen.PID, target gen.Event) error {
 		Target: target,
 		Ref:    ref,
 	}
-	ch := make(chan MessageResult)
+	ch := make(chan MessageResult, 1)
 	c.requestsMutex.Lock()
 	c.requests[ref] = ch
 	c.requestsMutex.Unlock()
@@ -1366,7 +1366,7 @@ func (c *connection) RemoteSpawn(name gen.Atom, options gen.ProcessOptionsExtra)
 		Ref:     ref,
 	}
 
-	ch := make(chan MessageResult)
+	ch := make(chan MessageResult, 1)
 	c.requestsMutex.Lock()
 	c.requests[ref] = ch
 	c.requestsMutex.Unlock()
